@@ -59,6 +59,7 @@ struct Report {
     std::chrono::steady_clock::time_point t0 = std::chrono::steady_clock::now();
     double deadline_s = 1e30;
     int shard = 0, nshards = 1;
+    uint64_t block = 1;      // cases are dealt to the shards in blocks of this many consecutive cases (1: round robin)
     std::string only_case;   // replay mode
     uint64_t index = 0;      // running case index used for sharding
     uint64_t sample_every = 1000;
@@ -71,6 +72,7 @@ struct Report {
             std::string a = argv[i];
             if (a == "--tier" && i + 1 < argc) tier = argv[++i];
             else if (a == "--shard" && i + 1 < argc) { sscanf(argv[++i], "%d/%d", &shard, &nshards); }
+            else if (a == "--block" && i + 1 < argc) { block = strtoull(argv[++i], nullptr, 10); if (!block) block = 1; }
             else if (a == "--case" && i + 1 < argc) { only_case = argv[++i]; verbose = true; }
             else if (a == "--out" && i + 1 < argc) out = argv[++i];
             else if (a == "--deadline" && i + 1 < argc) deadline_s = atof(argv[++i]);
@@ -88,7 +90,7 @@ struct Report {
     bool mine(const std::string& kase) {
         if (!only_case.empty()) return kase == only_case;
         uint64_t i = index++;
-        return (int)(i % (uint64_t)nshards) == shard;
+        return (int)((i / block) % (uint64_t)nshards) == shard;
     }
     // record one evaluated case. h = canonical hash of input+observation; trivial per the harness' rule
     void eval(const std::string& kase, uint64_t h, bool is_trivial) {
@@ -112,8 +114,8 @@ struct Report {
         if (samples.empty() || samples.back() != last_case) if (!last_case.empty()) samples.push_back(last_case);
         FILE* f = out.empty() ? stdout : fopen(out.c_str(), "w");
         if (!f) { perror("out"); return 3; }
-        fprintf(f, "{\"property\":\"%s\",\"harness\":\"%s\",\"tier\":\"%s\",\"shard\":%d,\"nshards\":%d,\n", property.c_str(),
-                harness.c_str(), tier.c_str(), shard, nshards);
+        fprintf(f, "{\"property\":\"%s\",\"harness\":\"%s\",\"tier\":\"%s\",\"shard\":%d,\"nshards\":%d,\"block\":%llu,\n", property.c_str(),
+                harness.c_str(), tier.c_str(), shard, nshards, (unsigned long long)block);
         fprintf(f, "\"evaluations\":%llu,\"trivial\":%llu,\"distinct_nontrivial\":%llu,\"exhaustive\":%s,\n",
                 (unsigned long long)evaluations, (unsigned long long)trivial, (unsigned long long)distinct.size(),
                 exhaustive ? "true" : "false");
